@@ -23,6 +23,18 @@ from spil.sid.read.finder import Finder
 from spil.util.log import debug, warning, error
 
 
+def last_per_group(founds: List[str], index: int) -> Iterator[str]:
+    """
+    From the given Sid strings, yields the last one of each group sharing the same parts before "index".
+
+    The parts are compared one by one, not the strings as a whole
+    (as a whole, "bob/rig" would sort after "bob-x/art", because "/" is greater than "-").
+    """
+    founds = sorted(set(founds), key=lambda x: x.split("/"), reverse=True)
+    for key, grp in it.groupby(founds, key=lambda x: x.split("/")[0:index]):
+        yield next(grp)
+
+
 class FindByGlob(Finder):
     """
     Parent class for glob type searches:
@@ -122,20 +134,15 @@ class FindByGlob(Finder):
             founds.extend(self.star_search([Sid(ssid)], as_sid=False))
             debug("star read done")
 
-        founds = sorted(list(set(founds)), reverse=True)
-        # TODO: sort by row - and resort after each narrowing
-        # pprint(founds)
+        # TODO: resort after each narrowing
         debug("found {} matches".format(len(founds)))
 
-        # for index in indices:
-        # works with > in any position, but does not use sort by row, and no delegate sorting, and no special sorting
-        for key, grp in it.groupby(founds, key=lambda x: x.split("/")[0:index]):
-            result = list(grp)
-            # debug('{}: {}'.format(key, result))
+        # works with > in any position, but no delegate sorting, and no special sorting
+        for result in last_per_group(founds, index):
             if as_sid:
-                yield Sid(result[0])
+                yield Sid(result)
             else:
-                yield result[0]
+                yield result
 
         """
         for index in indices:
